@@ -54,6 +54,28 @@ let random_run line =
   Printf.sprintf "stuck=%b final=%b steps=%d requested=%d packs=%d all_indexed=%b written_indexed=%b"
     !stuck (final s) !steps (List.length s.requested) (List.length s.idx) all_ix written_ix
 
+(* mode walker: `<nroots> root.. <ntrees> { <id> <nch> ch.. }*` = the tree graph a real walk saw (dense
+   ids).  Runs the walker model with the capacities found in the source under the first-enabled
+   scheduler; prints whether it got stuck, whether it ended in a final state and the delivered ids (sorted). *)
+let walker line =
+  let t = toks line in
+  let nr = ni t in
+  let roots = ntimes nr (fun () -> n_of_int (ni t)) in
+  let nt = ni t in
+  let tbl = Hashtbl.create 1024 in
+  let edges = ref 0 in
+  for _ = 1 to nt do
+    let id = ni t in let nc = ni t in
+    let ch = ntimes nc (fun () -> n_of_int (ni t)) in
+    edges := !edges + nc;
+    Hashtbl.replace tbl id ch
+  done;
+  let children x = match Hashtbl.find_opt tbl (int_of_n x) with Some l -> l | None -> [] in
+  let fuel = nat_of_int (10 * (nt + !edges + nr) + 100) in
+  let (s, stuck) = wrun_fuel children wcfg_src fuel (winit wcfg_src roots) in
+  let del = List.sort compare (List.map int_of_n s.delivered) in
+  Printf.sprintf "stuck=%b final=%b delivered=%s" stuck (wfinal s) (String.concat "," (List.map string_of_int del))
+
 let () =
   let mode = if Array.length Sys.argv > 2 then Sys.argv.(2) else "replay" in
-  main_loop (if mode = "random" then random_run else replay)
+  main_loop (if mode = "random" then random_run else if mode = "walker" then walker else replay)
